@@ -20,7 +20,7 @@ LEVEL_TEXT = (
     " (panic!/assert!/unreachable!) reachable from main must be a reviewed ledger entry whose discharging rule holds; the time box"
     " is on every propagation iteration; grammar terminals can only produce text their action converts without failing; byte cuts"
     " of user text are boundary-safe; arithmetic preconditions (C16) and desugaring completeness (C18) are shared; program-wide"
-    " ledgers of fallible indexing and of std calls documented to panic (unwrap/expect with any payload, positional Vec/slice/str methods).; the directory walk lists a directory once (descent guarded by the set of canonical directories listed so far)."
+    " ledgers of fallible indexing and of std calls documented to panic (unwrap/expect with any payload, positional Vec/slice/str methods).; the directory walk lists a directory once (descent guarded by the set of canonical directories listed so far). The include walk queues and marks files under canonical paths (termination of the walk, shared with C19.1)."
 )
 NOT_DECIDED = "stack depth on deeply nested input, memory use, implicit bounds / overflow checks and the internals of the generated parser; a ledger entry records a review, it does not prove the site cannot fail."
 TRUSTED = ["rustc MIR and trait resolution (engines/mirfacts)", "call-graph over-approximation: unresolved trait calls widened to every workspace impl, external-trait impls and grammar actions are roots", "reviewed ledger (DESIGN App. A)"]
@@ -640,6 +640,9 @@ def run(ctx):
     ctx.include("C01.15", "discharges `NonEmptyVec from a version range that is never empty` (update_declarations): the versions declared for a local are the whole range, or 0..1 when there is none (shared with C14.6)", c14.rule_declarations, only=["local-versions", "locals-all-versions", "declares-every-version", "statement-lists-the-versions"])
     import c02
 
+    import c19
+
+    ctx.include("C01.20", "the include walk terminates: files are queued and marked as visited under their canonical path, so a file reached again under another spelling (`s/../b.circom`) is not read again (shared with C19.1)", c19.rule_canonical)
     ctx.include("C01.18", "the pragma's version is compared component by component (an ordering computed by arithmetic on the components overflows for large numbers; shared with C02.8)", c02.rule_version_gate)
     import c03
 
